@@ -107,12 +107,15 @@ def sym(n):
     return ["sym", n]
 
 
-def draw_delay(b, species, allow=("fixed", "gaussian", "gamma"), scale=(0.05, 5.0)):
-    """A delay block with delayed reactants / products drawn from `species`."""
+def draw_delay(b, species, allow=("fixed", "gaussian", "gamma"), scale=(0.05, 5.0), allow_empty=False):
+    """A delay block with delayed reactants / products drawn from `species` (`allow_empty`: both lists may be empty - a
+    delayed reaction that queues nothing is a valid model and keeps its delay type and parameters)."""
     draw = b.draw
     typ = draw(st.sampled_from(list(allow)))
     dr = draw(st.lists(st.sampled_from(species), max_size=2))
-    dp = draw(st.lists(st.sampled_from(species), min_size=0 if dr else 1, max_size=2))
+    dp = draw(st.lists(st.sampled_from(species), min_size=0 if (dr or allow_empty) else 1, max_size=2))
+    if allow_empty and draw(st.integers(0, 3)) == 0:
+        dr, dp = [], []
     lo, hi = scale
     if typ == "fixed":
         pd = {"delay": b.value_entry(logfl(lo, hi))}
@@ -191,7 +194,7 @@ def positive_tree(b, species, smooth=False, time=False, step=True):
 
 
 def any_reaction(b, species, types=ref.PROP_TYPES, max_reactants=4, max_products=4, delay_prob=4, smooth=False,
-                 time=False, step=True):
+                 time=False, step=True, empty_delay=False):
     """A structurally arbitrary reaction (no dynamical constraints)."""
     draw = b.draw
     typ = draw(st.sampled_from(list(types)))
@@ -204,18 +207,19 @@ def any_reaction(b, species, types=ref.PROP_TYPES, max_reactants=4, max_products
     else:
         rx = general(reactants, products, positive_tree(b, species, smooth=smooth, time=time, step=step))
     if delay_prob and draw(st.integers(0, delay_prob - 1)) == 0:
-        rx["delay"] = draw_delay(b, species)
+        rx["delay"] = draw_delay(b, species, allow_empty=empty_delay)
     return rx
 
 
 @st.composite
 def structural_models(draw, min_rx=1, max_rx=5, types=ref.PROP_TYPES, delay_prob=4, smooth=False, time=False,
-                      max_species=5, integer_x0=False, step=True):
+                      max_species=5, integer_x0=False, step=True, empty_delay=False):
     species = draw(species_names(2, max_species))
     species = list(draw(st.permutations(species)))
     b = Builder(draw, species)
     for _ in range(draw(st.integers(min_rx, max_rx))):
-        b.reactions.append(any_reaction(b, species, types, delay_prob=delay_prob, smooth=smooth, time=time, step=step))
+        b.reactions.append(any_reaction(b, species, types, delay_prob=delay_prob, smooth=smooth, time=time, step=step,
+                                        empty_delay=empty_delay))
     if integer_x0:
         x0 = {s: float(draw(st.integers(0, 12))) for s in species}
     else:
